@@ -860,7 +860,6 @@ package psatoken
 //@ func DecodeClaimsFromCBOR
 //@   property C07 C16 C08 C05 C18 C04 C09 C20 C17 C02 C03 C19
 //@   ghostset prov(ret0) = bytesVal(buf) when ret1 == nil
-//@   ensures[err] ret1 != nil ==> ret0 == nil
 //@   ensures[malformed] !cborSelOK(bytesVal(buf)) ==> ret1 != nil
 //@   ensures[null] cborIsNull(bytesVal(buf)) ==> ret1 != nil
 //@   ensures[map] ret1 == nil ==> cborTopIsMap(bytesVal(buf))
@@ -1039,7 +1038,7 @@ package psatoken
 //@   ghostset bound(e) = true when ret == nil
 //@   ensures[fresh-msg] e.message != nil && fresh(e.message)
 //@   ensures[envelope] !coseDecOK(bytesVal(cwt)) ==> ret != nil && e.Claims == old(e.Claims) && len(e.message.Signature) == 0 && e.message.Payload == nil
-//@   ensures[claims-fail] coseDecOK(bytesVal(cwt)) && ret != nil ==> e.Claims == nil
+//@   ensures[claims-fail] coseDecOK(bytesVal(cwt)) && ret != nil ==> len(e.message.Signature) == 0 && e.message.Payload == nil
 //@   ensures[ok] ret == nil ==> coseDecOK(bytesVal(cwt)) && e.Claims != nil && fresh(e.Claims) && prov(e.Claims) == bytesVal(e.message.Payload) && bytesVal(e.message.Payload) == cosePayload(bytesVal(cwt)) && bytesVal(e.message.Signature) == coseSig(bytesVal(cwt)) && protOf(e.message) == protId(coseRawProt(bytesVal(cwt)), coseProtMap(bytesVal(cwt))) && mapVal(e.message.Headers.Protected) == coseProtMap(bytesVal(cwt)) && ((e.message.Payload == nil) == cosePayloadNil(bytesVal(cwt))) && len(e.message.Signature) > 0 && cborSelOK(bytesVal(e.message.Payload)) && !cborIsNull(bytesVal(e.message.Payload)) && inDom(profilesRegister, cborProfile(bytesVal(e.message.Payload)))
 //@   ensures[copies] ret == nil ==> (e.message.Payload == nil || fresh(e.message.Payload)) && fresh(e.message.Signature)
 //@   ensures[inv] evInv(e)
